@@ -66,10 +66,12 @@ EqualIffSame == (~Rejected(a) /\ ~Rejected(b)) => ((HashTree(a) = HashTree(b)) <
 RawTargetIrrelevant ==      \* only the resolved target matters, not how the link is written
     (~Rejected(a) /\ ~Rejected(b) /\ Sem(a) = Sem(b)) => HashTree(a) = HashTree(b)
 
-TSeq == SetToSeq(Trees)
-Cases == [c \in 1..(((Len(TSeq) - 1) \div Stride) + 1) |->
-            LET t == TSeq[(c - 1) * Stride + 1] IN
+Export ==
+    /\ TLCGet("stats").generated >= 0
+    /\ LET ts == SetToSeq(Trees) n == Len(ts) IN
+       JsonSerialize(IOEnv.OUT_FILE,
+         [c \in 1..(((n - 1) \div Stride) + 1) |->
+            LET t == ts[(c - 1) * Stride + 1] IN
             [tree |-> SetToSeq(t), rejected |-> Rejected(t),
-             hs |-> IF Rejected(t) THEN <<>> ELSE SetToSeq(HashTree(t))]]
-Export == TLCGet("stats").generated >= 0 /\ JsonSerialize(IOEnv.OUT_FILE, Cases)
+             hs |-> IF Rejected(t) THEN <<>> ELSE SetToSeq(HashTree(t))]])
 =============================================================================
